@@ -55,6 +55,8 @@ type Node struct {
 	B    *bridgesync.BridgeSync
 	L    *l1infotreesync.L1InfoTreeSync
 	G    *lastgersync.LastGERSync
+	// StillLocked: a control statement of the harness found the database write-locked after the busy timeout
+	StillLocked bool
 	W    Writer
 	DB   *sql.DB
 
